@@ -1307,6 +1307,37 @@ def _already_decorated_with_invariants(func: CallableT) -> bool:
     return already_decorated
 
 
+def recreate_property(
+    a_property: property,
+    fget: Optional[Callable[..., Any]],
+    fset: Optional[Callable[..., Any]],
+    fdel: Optional[Callable[..., Any]],
+) -> property:
+    """
+    Create a property with the given accessors which otherwise equals ``a_property``.
+
+    The new property is of the same class as the original one (which might be a sub-class of ``property``)
+    and keeps its documentation.
+    """
+    try:
+        return type(a_property)(
+            fget=fget, fset=fset, fdel=fdel, doc=a_property.__doc__
+        )
+    except TypeError:
+        # The sub-class of the property has a constructor of its own; we replace the accessors one by one.
+        result = a_property
+        if fget is not a_property.fget:
+            result = result.getter(fget)  # type: ignore
+
+        if fset is not a_property.fset:
+            result = result.setter(fset)  # type: ignore
+
+        if fdel is not a_property.fdel:
+            result = result.deleter(fdel)  # type: ignore
+
+        return result
+
+
 def add_invariant_checks(cls: ClassT) -> None:
     """Decorate each of the class functions with invariant checks if not already decorated."""
     # Candidates for the decoration as list of (name, dir() value)
@@ -1457,5 +1488,8 @@ def add_invariant_checks(cls: ClassT) -> None:
             else None
         )
         if fget is not prop.fget or fset is not prop.fset or fdel is not prop.fdel:
-            new_prop = property(fget=fget, fset=fset, fdel=fdel, doc=prop.__doc__)
-            setattr(cls, name, new_prop)
+            setattr(
+                cls,
+                name,
+                recreate_property(a_property=prop, fget=fget, fset=fset, fdel=fdel),
+            )
